@@ -9,7 +9,8 @@ EXTENDS PearlIO, Json, IOUtils
 
 Rec == ndJsonDeserialize(IOEnv.TRACE)
 
-VARIABLE l    \* next event to consume
+VARIABLES l,       \* next event to consume
+          crashed  \* the crash image of the last `crash` event: [kind, cuts]
 
 E == Rec[l]
 
@@ -17,7 +18,8 @@ IOInit ==
   /\ file = [x \in {} |-> 0] /\ everBlob = {} /\ active = NoBlob /\ limit = 0
   /\ api = "" /\ post = "" /\ postId = NoBlob /\ strict = FALSE
 
-TraceInit == IOInit /\ l = 1
+NoCrash == [kind |-> "", cuts |-> <<>>]
+TraceInit == IOInit /\ l = 1 /\ crashed = NoCrash
 
 Quiet == post' = "" /\ postId' = NoBlob
 
@@ -29,7 +31,7 @@ IsWriteEv(e) == e \in {"create", "reserve", "write", "write_done", "write_at", "
 \* background while the driver queries)
 QueryClean == ~(strict /\ api = "query" /\ IsWriteEv(E.ev))
 
-Consume ==
+ConsumeIO ==
   /\ QueryClean
   /\ CASE E.ev = "reset" ->
             /\ file' = [x \in {} |-> 0] /\ everBlob' = {} /\ active' = NoBlob
@@ -68,9 +70,20 @@ Consume ==
             /\ UNCHANGED <<file, everBlob, active, limit, api, strict>>
        [] OTHER -> UNCHANGED iovars   \* dumped, loaded, worker_begin / end / exit: no effect here
 
+\* C06: a crash image and what the real `init` recovered from it
+Consume ==
+  IF E.ev = "crash"
+  THEN /\ ImageAllowed(E.op, E.cuts)
+       /\ crashed' = [kind |-> E.op, cuts |-> E.cuts]
+       /\ UNCHANGED iovars
+  ELSE IF E.ev = "recovered"
+  THEN /\ RecoveryOK(crashed.kind, crashed.cuts, E.served, E.quar, E.restored)
+       /\ UNCHANGED <<iovars, crashed>>
+  ELSE ConsumeIO /\ crashed' = IF E.ev = "reset" THEN NoCrash ELSE crashed
+
 TraceNext == l <= Len(Rec) /\ l' = l + 1 /\ Consume
 
-TraceSpec == TraceInit /\ [][TraceNext]_<<iovars, l>>
+TraceSpec == TraceInit /\ [][TraceNext]_<<iovars, l, crashed>>
 
 \* the whole trace was consumed; otherwise report the first event that no action explains
 TraceAccepted ==
